@@ -2,10 +2,13 @@ pub mod cli;
 pub mod ctx;
 pub mod extract;
 pub mod heapmon;
+pub mod inject_ops;
+pub mod inject_ts;
 pub mod jsread;
 pub mod gen_ops;
 pub mod gen_schema;
 pub mod gen_syntax;
+pub mod gqljson;
 pub mod model;
 pub mod real;
 pub mod refimport;
@@ -26,6 +29,9 @@ use serde_json::Value;
 
 pub fn run_property(ctx: &Ctx, rep: &mut Report) -> Result<(), String> {
     match ctx.property.as_str() {
+        "C03" => props::c03::run_c03(ctx, rep),
+        "C04" => props::c03::run_c04(ctx, rep),
+        "C05" => props::c05::run(ctx, rep),
         "C06" => {
             props::c06::run_lib(ctx, rep);
         }
@@ -33,6 +39,7 @@ pub fn run_property(ctx: &Ctx, rep: &mut Report) -> Result<(), String> {
         "C08" => props::c08::run(ctx, rep),
         "C08L" => props::c08::run_loader(ctx, rep),
         "C11" => props::c11::run(ctx, rep),
+        "C12" => props::c12::run(ctx, rep),
         "C13" => props::c13::run(ctx, rep),
         "C16" => props::c16::run(ctx, rep),
         "C19" => props::c19::run(ctx, rep),
@@ -45,10 +52,13 @@ pub fn run_property(ctx: &Ctx, rep: &mut Report) -> Result<(), String> {
 pub fn replay_case(case: &Value, ctx: &Ctx) -> Result<Vec<Violation>, String> {
     let _ = ctx;
     match case["property"].as_str().unwrap_or("") {
+        "C03" | "C04" => Ok(props::c03::replay(case)),
+        "C05" => Ok(props::c05::replay(case)),
         "C06" => Ok(props::c06::replay(case)),
         "C07" => Ok(props::c07::replay(case)),
         "C08" => Ok(props::c08::replay(case, ctx)),
         "C11" => Ok(props::c11::replay(case)),
+        "C12" => Ok(props::c12::replay(case)),
         "C13" => Ok(props::c13::replay(case)),
         "C16" => Ok(props::c16::replay(case, ctx)),
         "C19" => Ok(props::c19::replay(case)),
